@@ -56,6 +56,8 @@ def plan(tier, seed):
     pairs += G.deletions(rng, 80 if q else 1200) + G.redox_family(rng, 34 if q else 300)
     pairs += G.ionic_balanced(rng, 20 if q else 200) + G.marker_collisions(rng, 30 if q else 300)
     pairs += G.h2_on_reactant_side(rng, 40 if q else 400)
+    pairs += G.multi_additions(rng, 120 if q else 1500)
+    pairs += G.with_spectator_copy(rng, rng.sample(pairs, 150 if q else 1500))
     pairs += [(t, rx) for t, rx in G.balanced_corpus()[: (60 if q else 1500)]]
     rng.shuffle(pairs)
     return [{"bases": c, "k": 6 if q else 10} for c in common.stripe(pairs, 16 if q else 48)]
@@ -94,7 +96,12 @@ def work(shard, res, tier, seed):
     for i in range(0, len(bases), 25):
         chunk = bases[i:i + 25]
         case = {"inputs": [rx for _, rx in chunk], "cfg": cfg}
-        out = rowlib.run_case(case)
+        try:
+            with common.alarm(240):
+                out = rowlib.run_case(case)
+        except common.Watchdog:
+            res.count("watchdog(inconclusive)")
+            continue
         if not rowlib.aligned(case, out):
             res.count("cases_not_aligned(C05)")
             continue
@@ -109,7 +116,12 @@ def work(shard, res, tier, seed):
         if not vs:
             continue
         case = {"inputs": [rx] + vs, "cfg": cfg}
-        out = rowlib.run_case(case)
+        try:
+            with common.alarm(120):
+                out = rowlib.run_case(case)
+        except common.Watchdog:
+            res.count("watchdog(inconclusive)")
+            continue
         if not rowlib.aligned(case, out):
             res.count("cases_not_aligned(C05)")
             continue
